@@ -135,3 +135,215 @@ Example roundtrip_context_nonvacuous :
   parse_context_patch (strm (emit_c [exc_h1; exc_h2; exc_h3] ++ bs "diff -c a b" ++ [10%N]))
   = Ok ([norm_hunk exc_h1; exc_h2; exc_h3], strm (bs "diff -c a b" ++ [10%N])).
 Proof. destruct exc_wf as (A & B & C). exact (conj A (conj B (conj C exc_roundtrip))). Qed.
+
+(* ===== merged from Properties_RejectFile.v ===== *)
+From PatchV Require Import Base Lines Hunk Locator Formatter Options Applier LineParser Parser
+     Spec_Locate Spec_Apply Proofs_Apply Proofs_Unified Proofs_Filler Proofs_Names Proofs_Rejects Proofs_CtxLines Proofs_CtxMerge
+     Proofs_Context Proofs_Sections_Unified Proofs_Whole Proofs_RejectFile.
+
+(* vocabulary (Proofs_RejectFile.v):
+   hdr_time path time   the stamp fmt_header_line prints after the name: Some time, or None when time is empty or the name
+                        is /dev/null;
+   name_reads name t    the name is not empty, has no tab, does not start with a double quote, and has no blank when t = None;
+   hdr_ok path time     name_reads path (hdr_time path time) and the line "path<TAB>time" is clean (no LF, no CR at its end);
+   time_kept path time  [] after /dev/null, else time;
+   reparsed f h1 p strip hs   the record mkPatch f (operation decided from h1 and the names) [] [] (stripped old) (stripped new)
+                        (time_kept ..) (time_kept ..) 0 0 hs;
+   rejected_by o f p r rj     rj = the hunks of the record q the run worked with (p, reversed under -R, reversed again
+                        when the reversed-patch question was answered yes) whose verdict is "rejected", each shifted by the
+                        net growth of the hunks applied before it (expected_rejects of Proofs_Rejects.v); r_patch r is q
+                        with the applied hunks as they were and the rejected ones shifted (hunks_left); run_kind says how
+                        the run went: normally (the verdicts are locate_hunk's answers), skipped, or taken as reversed;
+   read_back r strip f hs p'  p' has format f, hunks hs, the names of r_patch r after the strip, its time stamps. *)
+
+(* what write_reject appends, hunk after hunk, in unified form: the two header lines once, then the hunks *)
+Theorem reject_unified_file : forall o p h hs,
+  should_write_as_unified o p = true ->
+  reject_stream o p 0 (h :: hs) = Ok (write_patch_header_as_unified p ++ emit_hunks (h :: hs)).
+Proof. exact Proofs_RejectFile.reject_unified_file. Qed.
+Print Assumptions reject_unified_file.
+
+(* the header scan on "--- name<TAB>stamp" / "+++ name<TAB>stamp" with names that may hold blanks when a stamp follows *)
+Theorem unified_header_scan_names : forall strip f fl oldname t1 newname t2 h1 hs tail,
+  f = FUnknown \/ f = FUnified ->
+  Forall (Filler strip (empty_patch f)) fl -> Forall clean fl ->
+  name_reads oldname t1 -> name_reads newname t2 -> clean (oldname ++ tab_time t1) -> clean (newname ++ tab_time t2) ->
+  Forall wf_hunk (h1 :: hs) ->
+  parse_patch_header_full (empty_patch f) strip
+    (strm (join_lines (fl ++ [bs "--- " ++ oldname ++ tab_time t1; bs "+++ " ++ newname ++ tab_time t2]) ++ emit_hunks (h1 :: hs) ++ tail)) =
+  Ok (true,
+      mkPatch FUnified (decide_oper h1 (stripped oldname strip) (stripped newname strip)) [] []
+              (stripped oldname strip) (stripped newname strip) (opt_or (time_read t1) []) (opt_or (time_read t2) []) 0 0 [],
+      strm (emit_hunks (h1 :: hs) ++ tail), true).
+Proof. exact Proofs_RejectFile.unified_header_scan_names. Qed.
+Print Assumptions unified_header_scan_names.
+
+(* (1) a unified reject file — the two header lines of the record p and the hunks hs — is read back by parse_patch, for any
+   -p, as a unified patch with exactly these hunks and the (stripped) names of p *)
+Theorem unified_reject_file_reparses : forall p h hs strip,
+  hdr_ok (old_path p) (old_time p) -> hdr_ok (new_path p) (new_time p) -> Forall wf_hunk (h :: hs) ->
+  parse_patch (write_patch_header_as_unified p ++ emit_hunks (h :: hs)) FUnknown strip =
+  Ok (reparsed FUnified h p strip (h :: hs)).
+Proof. exact Proofs_RejectFile.unified_reject_file_reparses. Qed.
+Print Assumptions unified_reject_file_reparses.
+
+(* the header scan on a context header: "*** old<TAB>stamp", "--- new<TAB>stamp", the row of stars, "*** a,b ****": the scan
+   ends on the old range line with the format Context, and the stream is put back on the row of stars *)
+Theorem context_header_scan : forall strip f fl oldname t1 newname t2 h1 hs tail,
+  f = FUnknown \/ f = FContext ->
+  Forall (Filler strip (empty_patch f)) fl -> Forall clean fl ->
+  name_reads oldname t1 -> name_reads newname t2 -> clean (oldname ++ tab_time t1) -> clean (newname ++ tab_time t2) ->
+  wf_crange0 (oldr h1) ->
+  parse_patch_header_full (empty_patch f) strip
+    (strm (join_lines (fl ++ [bs "*** " ++ oldname ++ tab_time t1; bs "--- " ++ newname ++ tab_time t2]) ++ emit_c (h1 :: hs) ++ tail)) =
+  Ok (true,
+      mkPatch FContext (decide_oper (first_old (oldr h1)) (stripped oldname strip) (stripped newname strip)) [] []
+              (stripped oldname strip) (stripped newname strip) (opt_or (time_read t1) []) (opt_or (time_read t2) []) 0 0 [],
+      strm (emit_c (h1 :: hs) ++ tail), true).
+Proof. exact Proofs_RejectFile.context_header_scan. Qed.
+Print Assumptions context_header_scan.
+
+(* (2) a context reject file is read back as a context patch with the normalised hunks (same ranges, same old and new
+   sides; inside a change group the deletions first) and the names of p *)
+Theorem context_reject_file_reparses : forall p h hs strip,
+  hdr_ok (old_path p) (old_time p) -> hdr_ok (new_path p) (new_time p) -> Forall wf_hunk_c (h :: hs) ->
+  parse_patch (ctx_header_lines p ++ emit_c (h :: hs)) FUnknown strip =
+  Ok (reparsed FContext (first_old (oldr h)) p strip (map norm_hunk (h :: hs))).
+Proof. exact Proofs_RejectFile.context_reject_file_reparses. Qed.
+Print Assumptions context_reject_file_reparses.
+
+(* the loop of apply_patch, either reject format: what is appended to the reject file is write_reject on exactly the
+   rejected hunks, shifted, in order; the record keeps the applied hunks as they are and the rejected ones shifted *)
+Theorem rejects_loop_gen : forall o p f,
+  define_macro o = [] ->
+  forall hs k s s', a_skip s = false -> apply_rest o p f k s hs = Ok s' ->
+  exists vs t, verdicts_from_locate o p f (a_ln s) (a_offerr s) hs vs /\
+               reject_stream o p (a_rejected s) (expected_rejects vs hs (a_o2n s)) = Ok t /\
+               a_rej s' = a_rej s ++ t /\
+               a_rejected s' = a_rejected s + length (expected_rejects vs hs (a_o2n s)) /\
+               a_hunks s' = a_hunks s ++ hunks_left vs hs (a_o2n s) /\ a_skip s' = false.
+Proof. exact Proofs_RejectFile.rejects_loop_gen. Qed.
+Print Assumptions rejects_loop_gen.
+
+(* the whole of apply_patch (reversed-patch question included): r_rej is write_reject on the rejected hunks *)
+Theorem apply_patch_reject_stream : forall o f p r,
+  define_macro o = [] -> apply_patch o f p = Ok r ->
+  exists rj, rejected_by o f p r rj /\ length rj = r_failed r /\ reject_stream o (r_patch r) 0 rj = Ok (r_rej r).
+Proof. exact Proofs_RejectFile.apply_patch_reject_stream. Qed.
+Print Assumptions apply_patch_reject_stream.
+
+Theorem rejected_by_incl : forall o f p r rj, rejected_by o f p r rj -> forall h, In h rj -> In h (hunks (r_patch r)).
+Proof. exact Proofs_RejectFile.rejected_by_incl. Qed.
+Print Assumptions rejected_by_incl.
+
+Theorem rejected_by_force : forall o f p r rj,
+  rejected_by o f p r rj -> force o = true ->
+  let p1 := if reverse_patch_opt o then reverse_patch p else p in
+  exists vs, verdicts_from_locate o p1 f 0 0 (hunks p1) vs /\ rj = expected_rejects vs (hunks p1) 0 /\
+             hunks (r_patch r) = hunks_left vs (hunks p1) 0.
+Proof. exact Proofs_RejectFile.rejected_by_force. Qed.
+Print Assumptions rejected_by_force.
+
+(* (3) after a run with rejects, the reject file is read back as the rejected hunks *)
+Theorem apply_patch_unified_reject_reparses : forall o f p r strip,
+  define_macro o = [] -> apply_patch o f p = Ok r -> r_failed r <> 0 ->
+  should_write_as_unified o (r_patch r) = true ->
+  hdr_ok (old_path (r_patch r)) (old_time (r_patch r)) -> hdr_ok (new_path (r_patch r)) (new_time (r_patch r)) ->
+  exists rj, rejected_by o f p r rj /\ length rj = r_failed r /\
+    (Forall wf_hunk rj -> exists p', parse_patch (r_rej r) FUnknown strip = Ok p' /\ read_back r strip FUnified rj p').
+Proof. exact Proofs_RejectFile.apply_patch_unified_reject_reparses. Qed.
+Print Assumptions apply_patch_unified_reject_reparses.
+
+Theorem apply_patch_context_reject_reparses : forall o f p r strip,
+  define_macro o = [] -> apply_patch o f p = Ok r -> r_failed r <> 0 ->
+  should_write_as_unified o (r_patch r) = false ->
+  hdr_ok (old_path (r_patch r)) (old_time (r_patch r)) -> hdr_ok (new_path (r_patch r)) (new_time (r_patch r)) ->
+  exists rj, rejected_by o f p r rj /\ length rj = r_failed r /\
+    (Forall wf_hunk_c rj ->
+     exists p', parse_patch (r_rej r) FUnknown strip = Ok p' /\ read_back r strip FContext (map norm_hunk rj) p').
+Proof. exact Proofs_RejectFile.apply_patch_context_reject_reparses. Qed.
+Print Assumptions apply_patch_context_reject_reparses.
+
+(* ... with the well-formedness asked of the hunks the run returns (checkable on the result) *)
+Theorem apply_patch_unified_reject_reparses_checked : forall o f p r strip,
+  define_macro o = [] -> apply_patch o f p = Ok r -> r_failed r <> 0 ->
+  should_write_as_unified o (r_patch r) = true ->
+  hdr_ok (old_path (r_patch r)) (old_time (r_patch r)) -> hdr_ok (new_path (r_patch r)) (new_time (r_patch r)) ->
+  Forall wf_hunk (hunks (r_patch r)) ->
+  exists rj p', rejected_by o f p r rj /\ length rj = r_failed r /\
+                parse_patch (r_rej r) FUnknown strip = Ok p' /\ read_back r strip FUnified rj p'.
+Proof. exact Proofs_RejectFile.apply_patch_unified_reject_reparses_checked. Qed.
+Print Assumptions apply_patch_unified_reject_reparses_checked.
+
+Theorem apply_patch_context_reject_reparses_checked : forall o f p r strip,
+  define_macro o = [] -> apply_patch o f p = Ok r -> r_failed r <> 0 ->
+  should_write_as_unified o (r_patch r) = false ->
+  hdr_ok (old_path (r_patch r)) (old_time (r_patch r)) -> hdr_ok (new_path (r_patch r)) (new_time (r_patch r)) ->
+  Forall wf_hunk_c (hunks (r_patch r)) ->
+  exists rj p', rejected_by o f p r rj /\ length rj = r_failed r /\
+                parse_patch (r_rej r) FUnknown strip = Ok p' /\ read_back r strip FContext (map norm_hunk rj) p'.
+Proof. exact Proofs_RejectFile.apply_patch_context_reject_reparses_checked. Qed.
+Print Assumptions apply_patch_context_reject_reparses_checked.
+
+(* side lemmas for the hypotheses *)
+Theorem hdr_ok_simple : forall path time, plain_name path -> clean path -> clean time -> hdr_ok path time.
+Proof. exact Proofs_RejectFile.hdr_ok_simple. Qed.
+Print Assumptions hdr_ok_simple.
+
+Theorem wf_hunk_shift : forall h d,
+  wf_hunk h -> (0 <= rstart (oldr h) + d)%Z -> (0 <= rstart (newr h) + d)%Z -> wf_hunk (shift_hunk h d).
+Proof. exact Proofs_RejectFile.wf_hunk_shift. Qed.
+Print Assumptions wf_hunk_shift.
+
+Theorem wf_hunk_c_shift : forall h d,
+  wf_hunk_c h ->
+  (0 <= rstart (oldr h) + d)%Z -> (rstart (oldr h) + d + rcount (oldr h) <= MAXZ)%Z ->
+  (0 <= rstart (newr h) + d)%Z -> (rstart (newr h) + d + rcount (newr h) <= MAXZ)%Z ->
+  wf_hunk_c (shift_hunk h d).
+Proof. exact Proofs_RejectFile.wf_hunk_c_shift. Qed.
+Print Assumptions wf_hunk_c_shift.
+
+Theorem read_back_names : forall r strip f hs p',
+  (strip <= 0)%Z -> ~ In 47%N (old_path (r_patch r)) -> ~ In 47%N (new_path (r_patch r)) ->
+  read_back r strip f hs p' -> old_path p' = old_path (r_patch r) /\ new_path p' = new_path (r_patch r).
+Proof. exact Proofs_RejectFile.read_back_names. Qed.
+Print Assumptions read_back_names.
+
+(* non-vacuity: a two-hunk patch, the second hunk rejected, both reject formats, every hypothesis discharged; and the two
+   side conditions are needed (a name with a blank and no stamp; hunks that overlap) *)
+Import RejectFileExamples.
+Theorem ex_unified_reject : forall r,
+  apply_patch default_options ex_lines ex_p = Ok r ->
+  exists rj p', rejected_by default_options ex_lines ex_p r rj /\
+                parse_patch (r_rej r) FUnknown (-1) = Ok p' /\ read_back r (-1) FUnified rj p' /\
+                rj = [shift_hunk ex_h2 1] /\ old_path p' = bs "f.txt" /\ new_path p' = bs "f.txt" /\
+                old_time p' = bs "2024-01-01 10:00:00" /\ new_time p' = bs "2024-01-02 11:00:00".
+Proof. exact RejectFileExamples.ex_unified_reject. Qed.
+Print Assumptions ex_unified_reject.
+
+Theorem ex_context_reject : forall r,
+  apply_patch ex_oc ex_lines ex_p = Ok r ->
+  exists rj p', rejected_by ex_oc ex_lines ex_p r rj /\ length rj = 1 /\
+                parse_patch (r_rej r) FUnknown (-1) = Ok p' /\ read_back r (-1) FContext (map norm_hunk rj) p' /\
+                hunks p' = [shift_hunk ex_h2 1] /\ old_path p' = bs "f.txt" /\ new_path p' = bs "f.txt".
+Proof. exact RejectFileExamples.ex_context_reject. Qed.
+Print Assumptions ex_context_reject.
+
+Theorem ex_runs :
+  (exists r, apply_patch default_options ex_lines ex_p = Ok r /\ r_failed r = 1) /\
+  (exists r, apply_patch ex_oc ex_lines ex_p = Ok r /\ r_failed r = 1).
+Proof. exact RejectFileExamples.ex_runs. Qed.
+Print Assumptions ex_runs.
+
+Theorem blank_name_not_read_back :
+  exists p', parse_patch (write_patch_header_as_unified ex_p_blank ++ emit_hunks [ex_h2]) FUnknown (-1) = Ok p' /\
+             old_path p' = bs "my" /\ new_path p' = bs "my" /\ old_time p' = bs "file.txt".
+Proof. exact RejectFileExamples.blank_name_not_read_back. Qed.
+Print Assumptions blank_name_not_read_back.
+
+Theorem negative_start_not_read_back :
+  exists r, apply_patch default_options ex_lines ex_p_neg = Ok r /\ r_failed r = 1 /\
+            r_rej r = bs "--- f.txt" ++ [10%N] ++ bs "+++ f.txt" ++ [10%N] ++ bs "@@ --2 +-2 @@" ++ [10%N] ++ bs "-X" ++ [10%N] ++ bs "+Y" ++ [10%N] /\
+            parse_patch (r_rej r) FUnknown (-1) = Throw ERuntime.
+Proof. exact RejectFileExamples.negative_start_not_read_back. Qed.
+Print Assumptions negative_start_not_read_back.
